@@ -378,7 +378,7 @@ def gen_rejected(g, ms, h, nonjson=True):
 
 
 def gen_program(g, ms, n_steps, p_read=0.2, depth=2, handles=None, mutator_filter=None,
-                max_doc_nodes=120):
+                max_doc_nodes=120, p_node=0.05):
     """Generate op steps against ModelState ``ms`` (advanced as we go).
 
     handles: candidate handle ids (default: all roots). Targets are chosen uniformly over
@@ -416,6 +416,15 @@ def gen_program(g, ms, n_steps, p_read=0.2, depth=2, handles=None, mutator_filte
             op, args = g.dict_read(t) if read else g.dict_mutator(t, depth, allow_d)
         else:
             op, args = g.list_read(t) if read else g.list_mutator(t, depth, allow_l)
+        if not read and op in ("setitem", "append", "insert", "setdefault") and args and r.random() < p_node \
+                and not isinstance(args[0], dict):
+            # the value is an existing nested collection of the same document (d["b"] = d["a"]): it must be
+            # copied in, the two positions stay independent
+            absolute = H.path + list(sub)
+            cands = [p for p, _ in G.container_paths(ms.logical[H.res], 4)
+                     if p and p != absolute[:len(p)] and _count_nodes(ms.resolve(H.res, p)) < 15]
+            if cands:
+                args = list(args[:-1]) + [{"$node": r.choice(cands)}]
         step = {"op": op, "h": h, "path": sub, "args": args, "k": kind}
         steps.append(step)
         ms.apply_op(step)
